@@ -28,7 +28,7 @@ def run_histories(ctx, stream, ncases, nops, weights=None, consumer=True, mdib_f
         g = mdibgen.Gen(rng, inventory(ctx, f), weights, iface_mix)
         c = {'mdib': f, 'seed': i + 1, 'consumer': consumer, 'ops': g.history(rng.randint(max(2, nops // 3), nops))}
         if extra:
-            c.update(extra)
+            c.update(extra(rng, c) if callable(extra) else extra)
         cases.append(c)
     batches = [cases[i:i + batch] for i in range(0, len(cases), batch)]
 
@@ -143,4 +143,30 @@ def model_correspondence(ctx, stream, pairs, mdib_files):
                     'model': re.sub(r'\s+', ' ', out)[-3000:]})
     ctx.cov.setdefault('distinct_initial_snapshots', 0)
     ctx.cov['distinct_initial_snapshots'] = max(ctx.cov['distinct_initial_snapshots'], len(tr.init_defs))
+    return mism
+
+
+CHEADER = ('From Coq Require Import List ZArith Bool.\nImport ListNotations.\n'
+           'From SDC Require Import Mdib.Model Mdib.Run Mdib.Consumer Mdib.CRun.\nOpen Scope Z_scope.\n')
+
+
+def consumer_correspondence(ctx, stream, pairs, mdib_files, delivered=None):
+    """consumer model (coq/Mdib/Consumer.v) fed with the reports seen on the wire vs the real ConsumerMdib"""
+    tr = mdibmodel.ConsumerTranslator({f: inventory(ctx, f) for f in mdib_files})
+    cases = []
+    for i, (c, r) in enumerate(pairs):
+        name, u, h, e = tr.consumer_case(c, r, delivered[i] if delivered else None)
+        cases.append((f'({name}, {u}, {h})', e))
+    header = CHEADER + '\n'.join(tr.init_defs.values())
+    run = "fun c => let '(m, u, h) := c in crun_steps u m h"
+    mism, err = ctx.coq_mism(stream + '-consumer', header, 'ctrace_eqb', run, cases, shard=8, deps=['Mdib/CRun.vo'])
+    if err:
+        ctx.broken('correspondence', f'{stream} consumer (coq evaluation)', err[-1500:])
+    if mism:
+        i = mism[0]
+        c, r = pairs[i]
+        out = ctx.coq_eval(header, f'({run}) {cases[i][0]}')
+        ctx.broken('correspondence', f'{stream}: consumer model vs implementation',
+                   {'disagreements': len(mism), 'first_case': c, 'expected(impl)': cases[i][1][:3000],
+                    'model': re.sub(r'\s+', ' ', out)[-3000:]})
     return mism
